@@ -280,9 +280,10 @@ Qed.
 
 Lemma max_data_len_le sid0 off mb : max_data_len sid0 off mb <= Z.max 0 mb.
 Proof.
-  unfold max_data_len. pose proof (vlen_nonneg sid0). pose proof (offLen_nonneg off).
-  destruct (Z.gtb_spec (1 + vlen sid0 + offLen off + 1) mb); [lia|].
-  destruct (_ =? 1); lia.
+  pose proof (vlen_nonneg sid0). pose proof (offLen_nonneg off).
+  pose proof (max_data_len_spec sid0 off mb) as [A B]. cbn zeta in A, B.
+  destruct (Z.lt_ge_cases mb (1 + vlen sid0 + offLen off + 1)) as [L|G]; [rewrite (A L); lia|].
+  destruct (B G) as [R _]. lia.
 Qed.
 
 (* with a budget of at most one packet the pooled-frame slice never overflows *)
